@@ -55,7 +55,7 @@ pub fn tsan_slice(ctx: &Ctx, rep: &mut Report) {
     let mut rng = Rng::derive(ctx.seed, "tsan", 0);
     let mut runs = 0u64;
     let mut blocks: BTreeMap<String, u64> = BTreeMap::new();
-    let n_trees = 12;
+    let n_trees = 8;
     for t in 0..n_trees {
         let root = scratch.join(format!("t{t}"));
         let mut files = small_tree(&mut rng, 9);
@@ -67,7 +67,7 @@ pub fn tsan_slice(ctx: &Ctx, rep: &mut Report) {
             files.push(SrcFile { path: "src_root/cc/src/unparsable.rs".into(), source: "#[typeshare]\npub struct {{{{\n".into() });
         }
         write_tree(&root, &files);
-        let jobs: Vec<(usize, u64)> = (1..=16usize).flat_map(|th| (0..12u64).map(move |d| (th, d))).collect();
+        let jobs: Vec<(usize, u64)> = [1usize, 2, 3, 4, 6, 8, 12, 16].into_iter().flat_map(|th| (0..6u64).map(move |d| (th, d))).collect();
         let root_ref = &root;
         let bin_ref = &bin;
         let results: Vec<(i32, String)> = std::thread::scope(|s| {
